@@ -30,31 +30,42 @@ fn prefix_spellings() -> Vec<&'static str> {
 /// How the tool reads a word through both entry points.
 enum Read {
     Rejected,
-    Accepted(UnitParts, String),
+    /// one entry per entry point that accepts the word: (value of `1 <word>`, unit, unit text).
+    /// The statement speaks about every acceptance on its own ("whenever the tool accepts a
+    /// unit word it interprets it as one of the valid readings"): the entry points need not
+    /// agree on accepting, nor - for a word with several readings - on the reading, and the
+    /// scale may sit in the unit's prefixes or in the number.
+    Accepted(Vec<(BigRational, UnitParts, String)>),
     Disagree(String),
 }
 
 fn read_word(env: &mut Env, w: &str) -> Read {
     let via_query = obs::eval_one(env.db(), &format!("1 {w}"));
     let via_parse = w.parse::<anything::Compound>();
-    let q = match via_query {
-        Ok(Res::Ok { value, unit, unit_text }) => {
-            if !value.is_one() {
-                return Read::Disagree(format!("`1 {w}` returned the value {value}"));
-            }
-            Some((unit, unit_text))
-        }
-        Ok(Res::Err { .. }) => None,
+    let mut acc = Vec::new();
+    match via_query {
+        Ok(Res::Ok { value, unit, unit_text }) => acc.push((value, unit, format!("query: {unit_text}"))),
+        Ok(Res::Err { .. }) => {}
         Err(why) => return Read::Disagree(format!("`1 {w}`: {why}")),
-    };
-    let p = via_parse.ok().map(|c| (obs::unit_parts(&c), c.to_string()));
-    match (q, p) {
-        (None, None) => Read::Rejected,
-        (Some((a, t)), Some((b, _))) if a == b => Read::Accepted(a, t),
-        (Some((_, t)), Some((_, u))) => Read::Disagree(format!("query reads `{w}` as [{t}], str::parse::<Compound> as [{u}]")),
-        (Some((_, t)), None) => Read::Disagree(format!("query accepts `{w}` as [{t}], str::parse::<Compound> rejects it")),
-        (None, Some((_, u))) => Read::Disagree(format!("query rejects `{w}`, str::parse::<Compound> reads it as [{u}]")),
     }
+    if let Ok(c) = via_parse {
+        let parts = obs::unit_parts(&c);
+        if !acc.iter().any(|(v, p, _)| v.is_one() && *p == parts) {
+            acc.push((BigRational::one(), parts, format!("str::parse: {c}")));
+        }
+    }
+    if acc.is_empty() {
+        Read::Rejected
+    } else {
+        Read::Accepted(acc)
+    }
+}
+
+/// The meaning of one acceptance: the unit's SI scale times the value `1 <word>` came back with.
+fn meaning_of_reading(value: &BigRational, parts: &UnitParts) -> Result<Meaning, String> {
+    let mut m = meaning_of_parts(parts)?;
+    m.scale = m.scale * value;
+    Ok(m)
 }
 
 pub fn meaning_of_parts(parts: &UnitParts) -> Result<Meaning, String> {
@@ -260,7 +271,7 @@ impl Prop for C05 {
         }
         let bare = tables::find_by_name(w);
         let read = read_word(env, w);
-        let (parts, text) = match read {
+        let accepted = match read {
             Read::Disagree(why) => return fw::fail(format!("entry-points:{}", word_class(w)), why),
             Read::Rejected => {
                 if let Some(u) = bare {
@@ -268,9 +279,31 @@ impl Prop for C05 {
                 }
                 return Verdict::DontCare("word rejected by the tool");
             }
-            Read::Accepted(p, t) => (p, t),
+            Read::Accepted(a) => a,
         };
-        let got = match meaning_of_parts(&parts) {
+        if let Some(u) = bare {
+            if !accepted.iter().any(|(_, _, t)| t.starts_with("query:")) {
+                return fw::fail(format!("bare-rejected:{}", u.names[0]), format!("documented unit name `{w}` is rejected on its own as a query word"));
+            }
+        }
+        let mut last = Verdict::DontCare("no acceptance");
+        for (value, parts, text) in &accepted {
+            last = self.judge_word(w, bare, value, parts, text);
+            if matches!(last, Verdict::Fail { .. }) {
+                return last;
+            }
+        }
+        last
+    }
+    fn bounds(&self, tier: Tier) -> serde_json::Value {
+        serde_json::json!({"names": all_names().len(), "prefix_spellings": 41, "expression_items_max": tier.pick(3, 4)})
+    }
+}
+
+impl C05 {
+    /// One acceptance of the word `w` (by one entry point) against the valid readings.
+    fn judge_word(&self, w: &str, bare: Option<&'static tables::UnitDef>, value: &BigRational, parts: &UnitParts, text: &str) -> Verdict {
+        let got = match meaning_of_reading(value, parts) {
             Ok(m) => m,
             Err(e) => return fw::fail("unit-table", format!("`{w}` read as [{text}]: {e}")),
         };
@@ -324,9 +357,6 @@ impl Prop for C05 {
             ),
         )
     }
-    fn bounds(&self, tier: Tier) -> serde_json::Value {
-        serde_json::json!({"names": all_names().len(), "prefix_spellings": 41, "expression_items_max": tier.pick(3, 4)})
-    }
 }
 
 fn check_expr(env: &mut Env, e: &str) -> Verdict {
@@ -377,19 +407,28 @@ fn check_expr(env: &mut Env, e: &str) -> Verdict {
                 Verdict::DontCare("expression with a juxtaposed multi-unit word rejected by the tool")
             }
         }
-        Read::Accepted(parts, text) => match meaning_of_parts(&parts) {
-            Err(er) => fw::fail("unit-table", format!("`{e}` read as [{text}]: {er}")),
-            Ok(got) => {
-                if got.scale == want.scale && got.dim == want.dim {
-                    fw::pass(true, fw::hash_str(&format!("{}|{:?}", got.scale, got.dim)))
-                } else {
-                    fw::fail(
-                        format!("expr-meaning:{}", class()),
-                        format!("`{e}` must read as {} [{}], tool reads it as [{text}] = {} [{}]", want.scale, tables::dim_text(&want.dim), got.scale, tables::dim_text(&got.dim)),
-                    )
+        Read::Accepted(accepted) => {
+            let mut h = 0u64;
+            for (value, parts, text) in &accepted {
+                match meaning_of_reading(value, parts) {
+                    Err(er) => return fw::fail("unit-table", format!("`{e}` read as [{text}]: {er}")),
+                    Ok(got) => {
+                        if got.scale != want.scale || got.dim != want.dim {
+                            return fw::fail(
+                                format!("expr-meaning:{}", class()),
+                                format!("`{e}` must read as {} [{}], tool reads it as [{text}] = {} [{}]", want.scale, tables::dim_text(&want.dim), got.scale, tables::dim_text(&got.dim)),
+                            );
+                        }
+                        h = fw::hash_str(&format!("{}|{:?}", got.scale, got.dim));
+                    }
                 }
             }
-        },
+            // a documented-names expression must be accepted as a query at least
+            if !mixed && words.iter().all(|w| tables::find_by_name(w).is_some()) && !accepted.iter().any(|(_, _, t)| t.starts_with("query:")) {
+                return fw::fail(format!("expr-rejected:{}", class()), format!("unit expression `{e}` of documented names is rejected as a query; it reads as {} [{}]", want.scale, tables::dim_text(&want.dim)));
+            }
+            fw::pass(true, h)
+        }
     }
 }
 
